@@ -446,9 +446,12 @@ class Transaction:
             if rdataset.rdclass != self.manager.get_class():
                 raise ValueError(f"{method} has objects of wrong RdataClass")
             if rdataset.rdtype == dns.rdatatype.SOA:
-                _, _, origin = self._origin_information()
+                absolute, _, origin = self._origin_information()
                 if name != origin:
-                    raise ValueError(f"{method} has non-origin SOA")
+                    # The origin may also be spelled the other way (relative
+                    # vs. absolute) than the manager stores it.
+                    if absolute is None or name.derelativize(absolute) != absolute:
+                        raise ValueError(f"{method} has non-origin SOA")
             self._raise_if_not_empty(method, args)
             if not replace:
                 existing = self._get_rdataset(name, rdataset.rdtype, rdataset.covers)
